@@ -18,7 +18,7 @@ does not return, so every path of the C function is one `if â€¦ then â€¦ else â€
 import json, os, re, subprocess, sys
 
 LIBM = {"exp": "Num.exp", "log": "Num.log", "pow": "Num.pow", "sqrt": "Num.sqrt", "floor": "Num.floor",
-        "fabs": "Num.fabs", "erfc": "Num.erfc"}
+        "fabs": "Num.fabs", "erfc": "Num.erfc", "esl_stats_erfc": "Num.erfc"}
 LEAN_KEYWORDS = {"at", "in", "from", "end", "then", "do", "open", "fun", "let", "have", "show", "where", "with", "if",
                  "else", "by", "Type", "Prop", "Sort", "def", "theorem", "instance", "class", "structure", "match",
                  "mut", "for", "return", "import", "namespace", "section", "variable", "universe", "using", "calc",
@@ -429,6 +429,14 @@ FAMILIES = [
                                "esl_gev_logsurv", "esl_gev_invcdf", "esl_gev_Sample"]),
     ("esl_weibull.c", "esl_wei_", ["esl_wei_pdf", "esl_wei_logpdf", "esl_wei_cdf", "esl_wei_logcdf", "esl_wei_surv",
                                    "esl_wei_logsurv", "esl_wei_invcdf", "esl_wei_Sample"]),
+    # families on the special functions of esl_stats.c (function symbols of the class); their bisection inverses
+    # (do-while loops) are outside the subset and stay monitor-only
+    ("esl_stretchexp.c", "esl_sxp_", ["esl_sxp_pdf", "esl_sxp_logpdf", "esl_sxp_cdf", "esl_sxp_logcdf", "esl_sxp_surv",
+                                      "esl_sxp_logsurv"]),
+    ("esl_gamma.c", "esl_gam_", ["esl_gam_pdf", "esl_gam_logpdf", "esl_gam_cdf", "esl_gam_logcdf", "esl_gam_surv",
+                                 "esl_gam_logsurv"]),
+    ("esl_normal.c", "esl_normal_", ["esl_normal_pdf", "esl_normal_logpdf", "esl_normal_cdf", "esl_normal_surv"]),
+    ("esl_lognormal.c", "esl_lognormal_", ["esl_lognormal_pdf", "esl_lognormal_logpdf"]),
 ]
 
 if __name__ == "__main__":
@@ -436,3 +444,32 @@ if __name__ == "__main__":
     text, info = translate_all(src, FAMILIES)
     sys.stdout.write(text)
     sys.stderr.write("translated %d functions; literals: %s\n" % (len(info["functions"]), " ".join(info["literals"])))
+
+
+def erfc_coefficients(src_dir):
+    """kind G: the polynomial coefficients of esl_stats_erfc() (esl_stats.c), dumped from the working tree as binary64 bit
+    patterns (Python's float() rounds the decimal text correctly, as the C compiler does).  The branch structure of the
+    function is hand-modelled in Dist/FloatInst.lean (`erfcSun`) and tied bit-for-bit by the correspondence run."""
+    import struct
+    txt = open(os.path.join(src_dir, "esl_stats.c")).read()
+    m = re.search(r"\nesl_stats_erfc\(double x\)\s*\{(.*?)\n\}", txt, re.S)
+    if not m:
+        raise Unsupported("esl_stats.c: esl_stats_erfc not found")
+    body = m.group(1)
+    names = ["erx", "pp0", "pp1", "pp2", "pp3", "pp4", "qq1", "qq2", "qq3", "qq4", "qq5",
+             "pa0", "pa1", "pa2", "pa3", "pa4", "pa5", "pa6", "qa1", "qa2", "qa3", "qa4", "qa5", "qa6",
+             "ra0", "ra1", "ra2", "ra3", "ra4", "ra5", "ra6", "ra7", "sa1", "sa2", "sa3", "sa4", "sa5", "sa6", "sa7", "sa8",
+             "rb0", "rb1", "rb2", "rb3", "rb4", "rb5", "rb6", "sb1", "sb2", "sb3", "sb4", "sb5", "sb6", "sb7"]
+    found = dict(re.findall(r"static\s+const\s+double\s+(\w+)\s*=\s*([-+0-9.eE]+)\s*;", body))
+    out = ["/-! GENERATED on every run by translate/c2lean.py (erfc_coefficients) from esl_stats.c â€” do not edit. -/",
+           "namespace EaselModel.Dist.ErfcCoef"]
+    for n in names:
+        if n not in found:
+            raise Unsupported("esl_stats.c: coefficient %s of esl_stats_erfc not found" % n)
+        v = float(found[n])
+        out.append("def %s : Float := Float.ofBits 0x%016x  -- %s" % (n, struct.unpack("<Q", struct.pack("<d", v))[0], found[n]))
+    extra = sorted(set(found) - set(names))
+    if extra:
+        raise Unsupported("esl_stats.c: esl_stats_erfc has coefficients the model does not know: %s" % extra)
+    out.append("end EaselModel.Dist.ErfcCoef")
+    return "\n".join(out) + "\n"
